@@ -16,6 +16,10 @@ fn mem_verdict(peak: usize, supplied: usize) -> String {
 
 /// `<fn> <hex input> <cuts>` → `<ok|err|PANIC> mem=…` (ABORT / TIMEOUT are supplied by the parent).
 pub fn exec(f: &[String]) -> Option<String> {
+    if f[0] == "sess" {
+        // WebSocket MESSAGE decoder (fragment loop, ping/close handling): C11's session runner and judge
+        return crate::c11::exec(f);
+    }
     if f.len() != 3 {
         return None;
     }
@@ -25,11 +29,11 @@ pub fn exec(f: &[String]) -> Option<String> {
     let peer: SocketAddr = "127.0.0.1:9".parse().unwrap();
     let base = alloc::begin();
     let class: String = match f[0].as_str() {
-        "p_req" => match guarded(move || { let mut r = Chunked::new(chunks); Request::from_stream(&mut r, peer).is_ok() }) {
-            Ok(true) => "ok".into(), Ok(false) => "err".into(), Err(_) => "PANIC".into(),
+        "p_req" => match guarded(move || { let mut r = Chunked::new(chunks); Request::from_stream(&mut r, peer).map(|_| ()).map_err(|e| format!("{:?}", e)) }) {
+            Ok(Ok(())) => "ok".into(), Ok(Err(k)) => format!("err:{}", k), Err(_) => "PANIC".into(),
         },
-        "p_resp" => match guarded(move || { let mut r = Chunked::new(chunks); Response::from_stream(&mut r).is_ok() }) {
-            Ok(true) => "ok".into(), Ok(false) => "err".into(), Err(_) => "PANIC".into(),
+        "p_resp" => match guarded(move || { let mut r = Chunked::new(chunks); Response::from_stream(&mut r).map(|_| ()).map_err(|e| format!("{:?}", e)) }) {
+            Ok(Ok(())) => "ok".into(), Ok(Err(k)) => format!("err:{}", k), Err(_) => "PANIC".into(),
         },
         "p_ws" => match guarded(move || { let r = Chunked::new(chunks); humphrey_ws::verif::frame_from_stream(r).is_ok() }) {
             Ok(true) => "ok".into(), Ok(false) => "err".into(), Err(_) => "PANIC".into(),
@@ -190,6 +194,32 @@ pub fn gen(out: &mut Out, thorough: bool, seed: u64) {
         f.extend_from_slice(&vec![b'x'; 300]);
         add(&mut cases, "p_ws", &f, true);
     }
+    // ---- WebSocket message decoder: control frames of every small length, fragments, at every truncation
+    {
+        let key = "a1b2c3d4";
+        let mut scripts: Vec<String> = Vec::new();
+        for op in [8u8, 9, 10, 1, 2, 0] {
+            for len in [0usize, 1, 2, 3, 125, 126] {
+                for mask in [0u8, 1] {
+                    let payload = hex(&vec![0x41u8; len]);
+                    scripts.push(format!("1.000.{}.{}.{}.{}", op, mask, key, payload));
+                    // unfinished fragment followed by the control frame
+                    scripts.push(format!("0.000.1.1.{}.6162,1.000.{}.{}.{}.{}", key, op, mask, key, payload));
+                }
+            }
+        }
+        for sc in &scripts {
+            let total: usize = 100_000; // `keep`: everything the script encodes arrives, then the peer is gone
+            for delivery in ["-", "1", "1,1,1"] {
+                cases.push(vec!["sess".into(), sc.clone(), total.to_string(), delivery.into(), "r,r,n".into()]);
+            }
+        }
+        // every truncation point of one masked close-with-reason and one fragmented message
+        for keep in 0..24usize {
+            cases.push(vec!["sess".into(), format!("1.000.8.1.{}.03e8676f6f64627965", key), keep.to_string(), "-".into(), "r,r".into()]);
+            cases.push(vec!["sess".into(), format!("0.000.2.1.{}.0102,1.000.9.0.{}.,1.000.0.1.{}.03", key, key, key), keep.to_string(), "-".into(), "r,r".into()]);
+        }
+    }
     // ---- JSON parser
     let json_seeds: &[&str] = &[
         r#"{"a":[1,2,{"b":null}],"c":"xé😀","d":-1.5e10,"e":true}"#,
@@ -249,7 +279,7 @@ pub fn gen(out: &mut Out, thorough: bool, seed: u64) {
     let mut results: Vec<String> = Vec::new();
     for h in handles { results.extend(h.join().unwrap()); }
     for (c, r) in cases.iter().zip(results.iter()) {
-        out.count(&format!("{}:{}", c[0], r.split(' ').next().unwrap_or("?")));
+        out.count(&format!("{}:{}", c[0], if c[0] == "sess" { if r.contains("PANIC") { "PANIC" } else { "ran" } } else { r.split(' ').next().unwrap_or("?") }));
         if r.contains("EXCESS") { out.count(&format!("{}:mem-excess", c[0])); }
         let fr: Vec<&str> = c.iter().map(|s| s.as_str()).collect();
         out.case(&fr, r, true);
